@@ -15,7 +15,9 @@ perturbation runs of the harness.
 -/
 import DaskArrayModel.Lemmas.Names
 import DaskArrayModel.Generated.NameTables
+import DaskArrayModel.Lemmas.KernelDecide
 namespace Dask.Props.C06
+open Dask.KernelDecide
 open Dask.Names Dask.Lemmas.Names
 open Dask.Generated.NameTables
 
@@ -114,11 +116,11 @@ theorem covered_semEff (i : Nat) (h : covered i = true) : ∀ p, p ∈ semEff i 
 theorem C06_table_wellformed :
     params.length = classes.length ∧ tokenized.length = classes.length ∧ semantic.length = classes.length ∧
     (∀ c, c ∈ optOut → c ∈ classes) ∧ (∀ q, q ∈ nonSemantic → q.1 ∈ classes) := by
-  decide +kernel
+  kernel_decide
 
 theorem C06_table_covers :
     ∀ i, i < classes.length → (covered i = true ∨ optOut.contains (classes.getD i "") = true) := by
-  decide +kernel
+  kernel_decide
 
 /-- positions of class `i`'s tokenized / semantic operands and the pinned flag, as the model wants them -/
 def tokenizedPos (i : Nat) : List Nat := posOf (params.getD i []) (tokenized.getD i [])
@@ -189,7 +191,7 @@ example :
 example : customTokenizer.contains "Reduction" = true ∧ (semantic.getD (classes.idxOf "Reduction") []).contains "meta" = true ∧
     (tokenized.getD (classes.idxOf "Reduction") []).contains "meta" = false ∧
     (tokenized.getD (classes.idxOf "Reduction") []).contains "axis" = true := by
-  decide +kernel
+  kernel_decide
 
 /-- cache: a history with a repeated name is answered from the cache -/
 example :
